@@ -76,6 +76,7 @@ type Authn struct {
 type Assertion struct {
 	ID, Version, IssueInstant *string
 	Issuer                    *string
+	IssuerFormat              *string // Format attribute on the Issuer element (the schema allows it; the value still has to match)
 	HasSubject                bool
 	NameID                    *string
 	NameIDFormat              *string
@@ -94,6 +95,7 @@ type Assertion struct {
 type Response struct {
 	ID, InResponseTo, Destination, Version, IssueInstant *string
 	Issuer                                               *string
+	IssuerFormat                                         *string
 	HasStatus                                            bool
 	StatusCodes                                          []string   // nested chain, outermost first
 	ExtraStatus                                          [][]string // further Status elements after the first (encoding/xml merges them: the last StatusCode wins)
@@ -106,6 +108,7 @@ type Logout struct {
 	IsResponse                                           bool
 	ID, InResponseTo, Destination, Version, IssueInstant *string
 	Issuer                                               *string
+	IssuerFormat                                         *string
 	NameID                                               *string
 	SessionIndex                                         *string
 	HasStatus                                            bool
@@ -183,7 +186,7 @@ func (a *Assertion) Node() *Node {
 	n.Signable = true
 	n.AOpt("ID", a.ID).AOpt("Version", a.Version).AOpt("IssueInstant", a.IssueInstant)
 	if a.Issuer != nil {
-		n.Add(El(NSA, "Issuer").T(*a.Issuer))
+		n.Add(El(NSA, "Issuer").AOpt("Format", a.IssuerFormat).T(*a.Issuer))
 	}
 	if a.HasSubject {
 		sub := El(NSA, "Subject")
@@ -259,7 +262,7 @@ func (r *Response) Node() (*Node, []*Node) {
 	n.Signable = true
 	n.AOpt("ID", r.ID).AOpt("InResponseTo", r.InResponseTo).AOpt("Version", r.Version).AOpt("IssueInstant", r.IssueInstant).AOpt("Destination", r.Destination)
 	if r.Issuer != nil {
-		n.Add(El(NSA, "Issuer").T(*r.Issuer))
+		n.Add(El(NSA, "Issuer").AOpt("Format", r.IssuerFormat).T(*r.Issuer))
 	}
 	if r.HasStatus {
 		n.Add(statusNode(r.StatusCodes))
@@ -286,7 +289,7 @@ func (l *Logout) Node() *Node {
 	n.Signable = true
 	n.AOpt("ID", l.ID).AOpt("InResponseTo", l.InResponseTo).AOpt("Version", l.Version).AOpt("IssueInstant", l.IssueInstant).AOpt("Destination", l.Destination)
 	if l.Issuer != nil {
-		n.Add(El(NSA, "Issuer").T(*l.Issuer))
+		n.Add(El(NSA, "Issuer").AOpt("Format", l.IssuerFormat).T(*l.Issuer))
 	}
 	if l.HasStatus {
 		n.Add(statusNode(l.StatusCodes))
